@@ -28,11 +28,43 @@ from . import models as M
 from .ops import zterm, mk_int, conj, py_eq, binop
 
 
+def _bounds(I, t):
+    """(lo, hi) known for the integer constant t from literal facts `t >= k` / `t <= k` / `t == k` of the path
+    condition - no solver call.  Only an accelerator: a missing bound is None and the caller asks the solver."""
+    p = I.path
+    st = getattr(p, '_uri_bounds', None)
+    if st is None:
+        st = p._uri_bounds = {'n': 0, 'lo': {}, 'hi': {}}
+    pc = p.pc
+    while st['n'] < len(pc):
+        a = pc[st['n']]
+        st['n'] += 1
+        for lit in (a.children() if z3.is_and(a) else [a]):
+            if not z3.is_app(lit) or lit.num_args() != 2:
+                continue
+            x, kk = lit.arg(0), lit.arg(1)
+            if not (z3.is_const(x) and z3.is_int_value(kk) and x.decl().kind() == z3.Z3_OP_UNINTERPRETED):
+                continue
+            kind, i, v = lit.decl().kind(), x.get_id(), kk.as_long()
+            if kind in (z3.Z3_OP_GE, z3.Z3_OP_EQ):
+                st['lo'][i] = max(st['lo'].get(i, v), v)
+            if kind in (z3.Z3_OP_LE, z3.Z3_OP_EQ):
+                st['hi'][i] = min(st['hi'].get(i, v), v)
+    i = t.get_id()
+    return st['lo'].get(i), st['hi'].get(i)
+
+
 def _char_in(I, c, codes):
     """c in codes (concrete answer; forks when both are possible)"""
     if isinstance(c, int):
         return c in codes
     t = zterm(c)
+    lo, hi = _bounds(I, t)
+    if lo is not None and hi is not None:
+        if all(k < lo or k > hi for k in codes):
+            return False
+        if lo == hi:
+            return lo in codes
     return I.path.decide(z3.Or(*[t == k for k in codes]) if len(codes) > 1 else t == codes[0])
 
 
@@ -42,7 +74,8 @@ def _require_plain_ascii(I, chars, what):
             ok = 33 <= c <= 126
         else:
             t = zterm(c)
-            ok = I.path.must(z3.And(t >= 33, t <= 126))
+            lo, hi = _bounds(I, t)
+            ok = (lo is not None and hi is not None and lo >= 33 and hi <= 126) or I.path.must(z3.And(t >= 33, t <= 126))
         if not ok:
             raise OutOfSubset('%s: character outside printable non-blank ASCII (33..126) in a symbolic string' % what)
 
@@ -151,6 +184,9 @@ def _parse_qs(I, a, k):
                 raise OutOfSubset('parse_qs: + or % (unquoting) in a symbolic query')
         else:
             t = zterm(c)
+            lo, hi = _bounds(I, t)
+            if lo is not None and hi is not None and all(kk < lo or kk > hi for kk in (38, 61, 43, 37)):
+                continue
             if not I.path.must(z3.And(t != 38, t != 61, t != 43, t != 37)):
                 raise OutOfSubset('parse_qs: a symbolic character may be one of & = + %')
     pieces = [[]]
@@ -233,6 +269,9 @@ def _hex_value(I, c):
         ch = chr(c)
         return int(ch, 16) if ch in '0123456789abcdefABCDEF' else None
     t = zterm(c)
+    b_lo, b_hi = _bounds(I, t)
+    if b_lo is not None and b_hi is not None and 48 <= b_lo and b_hi <= 57:
+        return mk_int(t - 48)
     dig = z3.And(t >= 48, t <= 57)
     up = z3.And(t >= 65, t <= 70)
     lo = z3.And(t >= 97, t <= 102)
